@@ -210,6 +210,21 @@ func Run(cs *Case, workRoot string) Result {
 		return Result{Inconclusive: "unknown change " + cs.Change}
 	}
 
+	// A provider that already handles events while it loads would call the processor now, with the first call still in
+	// progress. It is given a moment to do so (a correct provider stays silent, the wait then simply runs out: this bound
+	// limits what the scenario can detect, it cannot raise an alarm).
+	for waited := time.Duration(0); waited < 400*time.Millisecond; waited += 5 * time.Millisecond {
+		g.mu.Lock()
+		concurrent := g.n > cs.Gate
+		g.mu.Unlock()
+
+		if concurrent {
+			break
+		}
+
+		time.Sleep(5 * time.Millisecond)
+	}
+
 	close(g.release)
 
 	select {
